@@ -232,7 +232,7 @@ func (h *tkHarness) quoteInfo(base []tkTok) (from []bool, dec []string, why stri
 				if !ok {
 					return nil, nil, "the quote state is " + mRender(qs)
 				}
-				f := h.c.Prog.LookupMethod(qi.t, nil, "DecodeString")
+				f := h.c.lookupMethod(qi.t, "DecodeString")
 				if f == nil {
 					return nil, nil, "DecodeString not found"
 				}
